@@ -27,6 +27,15 @@ THEOREMS = [
     "TornadoModel.C42.futOf_eq_spec",
     "TornadoModel.C42.callback_at_most_once",
     "TornadoModel.C42.reported_child_released",
+    "TornadoModel.C42.wait_for_exit_signal_death",
+    "TornadoModel.C42.goodN_step",
+    "TornadoModel.C42.goodN_after",
+    "TornadoModel.C42.exit_reported_at_most_once",
+    "TornadoModel.C42.callback_exactly_once_any_regs",
+    "TornadoModel.C42.drain_fires_installed_callback",
+    "TornadoModel.C42.registration_after_exit",
+    "TornadoModel.C42.reregistration_after_report_never_fires",
+    "TornadoModel.C42.reregistration_after_report_fires_refuted",
 ]
 TRUSTED = [
     "os.waitpid(pid, WNOHANG) contract (0 for running, (pid,status) once for a zombie, ChildProcessError afterwards) as simulated by the harness; Linux wait-status macros",
@@ -34,7 +43,7 @@ TRUSTED = [
     "kernel SIGCHLD delivery (at least one delivery after the last exit; coalescing) is an event of the model",
 ]
 ASSUMPTIONS = [
-    "exactly-once is claimed for children with exactly one registration (a second set_exit_callback replaces the first; such histories are in the correspondence stream only)",
+    "the oracle demands exactly-once for children with exactly one registration; for several registrations (a later set_exit_callback replaces the earlier one) the theorems callback_exactly_once_any_regs / exit_reported_at_most_once cover the model, the oracle only demands at most one invocation per child in total, and a registration made after the exit was reported is never called (reregistration_after_report_never_fires: behaviour of the code as it is, outside the property)",
     "nobody else reaps the child (Popen.wait/poll are not used concurrently)",
     "wait statuses are 16-bit; stopped/continued statuses (low 7 bits = 127) are never returned by waitpid(pid, WNOHANG): they hit `assert os.WIFEXITED` and are in the correspondence stream only",
     "callbacks do not raise and do not re-register",
@@ -44,9 +53,10 @@ RULE = ("histories over {exit c status, register c mode, sigchld, drain}; comple
         "re-registration, duplicate exits, 4 children; non-trivial = some child both exits and is registered")
 EXHAUSTIVE = {"quick": True, "thorough": True}
 CLAUSES = {
-    "exit callback runs exactly once, for any timing of the exit relative to registration": "callback_exactly_once, callback_at_most_once",
+    "exit callback runs exactly once, for any timing of the exit relative to registration": "callback_exactly_once, callback_at_most_once; any number of registrations: callback_exactly_once_any_regs, exit_reported_at_most_once, drain_fires_installed_callback, registration_after_exit",
+    "re-registration after the first callback fired": "reregistration_after_report_never_fires (the late callback is never called, a late wait_for_exit future stays pending, the child stays in _waiting); the wish that it fires is refuted: reregistration_after_report_fires_refuted",
     "with the exit status (negative signal number for signals)": "status_decoding, callback_exactly_once",
-    "wait_for_exit resolves with that status or raises CalledProcessError for non-zero statuses when raise_error is set": "wait_for_exit_outcome",
+    "wait_for_exit resolves with that status or raises CalledProcessError for non-zero statuses when raise_error is set": "wait_for_exit_outcome, wait_for_exit_signal_death (signal deaths: CalledProcessError(-sig) with raise_error, result -sig without)",
     "no leak (a reported child leaves _waiting and the loop queue, and has been reaped)": "reported_child_released",
     "several concurrent children": "view_step (per-child projection: other children's events do not interfere) + tie",
 }
@@ -474,6 +484,8 @@ def spec_violation(case, impl, replies):
             seen[c[1]] = seen.get(c[1], 0) + 1
         if any(v > 1 for v in seen.values()):
             return "twice: exit callback of child %d ran %d times" % (i, max(seen.values()))
+        if len(per_calls[i]) > 1:
+            return "twice: exit of child %d reported by %d callback invocations in total" % (i, len(per_calls[i]))
         if any(c[3] is not True for c in per_calls[i]):
             return "not-cleared: exit callback of child %d was still registered while it ran" % i
         if len(regs) != 1 or (exits and exits[0][2] % 128 == 127) or (exits and not 0 <= exits[0][2] < 65536):
